@@ -21,4 +21,6 @@ def fnv (bs : Bytes) : UInt64 :=
 def pattern (seed len : Nat) : Bytes :=
   (List.range len).map (fun i => UInt8.ofNat ((seed + i * 7 + i / 251) % 256))
 
+def showPlus (xs : List Nat) : String := if xs.isEmpty then "-" else "+".intercalate (xs.map toString)
+
 end Driver
